@@ -52,20 +52,34 @@ class Prop(Check):
         "Proc.C13_replace_none",
         "Proc.C13_snapshot",
         "Proc.C13_phase",
+        "Proc.C13_phase_models",
+        "Proc.C13_models_own_metamodel",
+        "Proc.C13_finish_single",
     ]
     DRIVER = "Drivers/Proc.lean"
-    QUICK_CASES = 390
+    QUICK_CASES = 440
     THOROUGH_CASES = 12000
     RULE = ("generated grammars with 2..5 common rules, 0..3 abstract rules (nested, with match-rule alternatives, "
             "wrapped alternatives), recursive containment, references with postponement schedules, user classes, "
             "1..3 files; processors on all rules or a random subset, 15% of the calls return a replacement; "
+            "the grammar in one file or spread over up to 12 files importing each other (rules reachable through a "
+            "chain of imports only); the observed load alone or after a history: 1..3 metamodels of the same grammar "
+            "built in any order with the same (or fresh) user classes, earlier loads with any of them (successful, or "
+            "failing with a syntax error / an unresolvable reference / a raising processor), registrations that are "
+            "replaced, a model repository that keeps the models of earlier loads, imported files that belong to "
+            "another metamodel of the history (registered language); "
             "non-trivial = at least 3 processor calls and (a replacement took effect or an object sits in an "
             "abstract-typed attribute whose rule has a processor)")
     MODELLED = ("hand-modelled: model.py call_obj_processors (Proc.walk/walkFields/walkSlot/walkItems/objStep) and the "
-                "load tail model.py:971-987 (Proc.finish); tie X: op objproc — model state before the first processor "
-                "call + registration table + return-value script -> event sequence, per-call snapshots, final model; "
-                "not exhibited: processors that mutate other parts of the model, objects whose class is not in the "
-                "metamodel, metamodels differing per file")
+                "load tail model.py:971-987 (Proc.finish, Proc.finishMM: every model walked with its own metamodel's "
+                "registrations); tie X: op objproc — model state before the first processor "
+                "call + registration table per model + return-value script -> event sequence, per-call snapshots, final "
+                "model; the history of a load is not an input of the model (the walk is a function of the model and the "
+                "registrations of its metamodel): the implementation is run through generated histories and compared "
+                "with the history-free model; the guard `fully qualified class name in metamodel` is true for every "
+                "object textX builds with that metamodel and is not modelled; "
+                "not exhibited: processors that mutate other parts of the model or load models themselves, "
+                "metamodels of different grammars in one load")
     ASSUMPTIONS = [
         "models have the shape textX builds (Proc.wf: objects only in containment attributes, attribute typed by a "
         "common rule holds that class, lists under many-attributes) — evaluated by the driver on every case",
@@ -115,16 +129,151 @@ class Prop(Check):
                             script.append([rule, uid, ["f", r.choice(cands)]])
         case["script"] = script
         # postponement: a round that resolves nothing ends the loop (C09) -> contiguous waits
-        waits = sorted({ref["wait"] for ref in self.case_refs(case)})
-        rank = {w: i for i, w in enumerate(waits)}
-        for ref in self.case_refs(case):
-            ref["wait"] = rank[ref["wait"]]
-        if waits and 0 not in waits:
-            pass  # ranks start at 0 by construction
+        self.rerank(case)
+        self.gen_config(case, r.fork("config"))
+        self.gen_history(case, r.fork("history"))
+
+    # "For any grammar": the grammar may be spread over files that import each other.
+    # "For any … model": the load may be one of many — other metamodels built from the same grammar
+    # with the same user classes, earlier (also failing) loads, replaced registrations, a model
+    # repository that keeps the models of earlier loads.
+    def gen_config(self, case, r):
+        schema = case["schema"]
+        # one group of mutually recursive rules per file: are there model objects of rules that the
+        # main grammar file reaches through a chain of imports only?  Then mostly use that split.
+        fine = pg.split_levels(schema, r.fork("fine"), 12)
+        if self.chained_objects(case, fine) and r.chance(0.75):
+            case["gsplit"] = {"levels": fine}
+        elif r.chance(0.25):
+            lev = pg.split_levels(schema, r, r.weighted([(2, 2), (3, 3), (4, 1)]))
+            if max(lev.values()) > 0:
+                case["gsplit"] = {"levels": lev}
+        if case.get("from_file") and r.chance(0.35):
+            case["grepo"] = True
 
     @staticmethod
-    def case_refs(case):
+    def chained_objects(case, lev):
+        """model objects whose rule is defined in a grammar file that g0 does not import itself."""
+        uses = pg.rule_uses(case["schema"])
+        direct = {0} | {lev[y] for x, ys in uses.items() if lev[x] == 0 for y in ys}
+        return [x["uid"] for f in case["files"] for x in pg.walk_objs(f["root"]) if lev[x["rule"]] not in direct]
+
+    def gen_history(self, case, r):
+        nfiles = len(case["files"])
+        repo = bool(case.get("grepo")) and nfiles > 1  # a repository only matters when there were earlier loads
+        if not r.chance(0.55) and not repo:
+            return
+        schema = case["schema"]
+        rules = [x["name"] for x in schema["rules"]] + [a["name"] for a in schema["abstracts"]]
+        labels = r.shuffle(list(range(1 + r.weighted([(0, 2), (1, 5), (2, 2)]))))
+        timed, built = [], {}
+        for j, lab in enumerate(labels):
+            built[lab] = 100 * j
+            timed.append((100 * j, len(timed), ["build", lab, True if lab == 0 else r.chance(0.85)]))
+            if lab != 0 and r.chance(0.85):
+                timed.append((100 * j, len(timed), ["reg", lab, [x for x in rules if r.chance(0.6)]]))
+        end = 100 * len(labels)
+        tfinal = r.randint(built[0] + 1, end)
+        if r.chance(0.3):  # a registration that is replaced by the final one
+            timed.append((r.randint(built[0] + 1, tfinal), len(timed), ["reg", 0, [x for x in rules if r.chance(0.5)]]))
+        timed.append((tfinal, len(timed), ["reg", 0, None]))
+        for _ in range(r.weighted([(0, 2), (1, 4), (2, 3)])):
+            lab = r.choice(labels)
+            kind = r.weighted([("ok", 6), ("syntax", 1), ("ref", 1), ("proc", 1)])
+            main = r.below(nfiles) if nfiles > 1 and r.chance(0.5) else 0
+            timed.append((r.randint(built[lab] + 1, end + 20), len(timed), ["load", lab, kind, main]))
+        if repo and r.chance(0.8):  # an imported file was loaded before (as a main model): its model is kept
+            timed.append((r.randint(built[0] + 1, end + 20), len(timed), ["load", 0, "ok", r.randint(1, nfiles - 1)]))
+        case["history"] = {"steps": [st for _t, _n, st in sorted(timed, key=lambda x: x[:2])]}
+        # imported files that belong to another metamodel of the history (registered as a language for
+        # their file extension): their models are walked with that metamodel's registrations
+        others = [lab for lab in labels if lab != 0]
+        if nfiles > 1 and others and not case.get("grepo") and r.chance(0.9):
+            mmfile = {str(k): r.choice(others) for k in range(1, nfiles) if r.chance(0.7)}
+            # a file without a language of its own is loaded with the metamodel of the file that imports it
+            # first; to keep "which metamodel" decidable such files are imported by files of metamodel 0 only
+            changed = True
+            while changed:
+                changed = False
+                for k, lab in list(mmfile.items()):
+                    for j in case["files"][int(k)]["imports"]:
+                        if j != 0 and str(j) not in mmfile:
+                            mmfile[str(j)], changed = lab, True
+            if not any(0 in case["files"][int(k)]["imports"] for k in mmfile):
+                self.set_mmfile(case, mmfile)
+
+    @staticmethod
+    def set_mmfile(case, mmfile):
+        """assign imported files to metamodels (file number -> label) and name them accordingly in the
+        import statements."""
+        from harness.procrun import EXT
+
+        if mmfile:
+            case["mmfile"] = mmfile
+        else:
+            case.pop("mmfile", None)
         for f in case["files"]:
+            for imp in f["root"]["vals"].get("imports", []) if len(case["files"]) > 1 else []:
+                j = int(imp["vals"]["importURI"]["lit"].strip('"')[1:].split(".")[0])
+                imp["vals"]["importURI"]["lit"] = f'"f{j}.{EXT[mmfile.get(str(j), 0)]}"'
+
+    @staticmethod
+    def regs(case):
+        """label -> rules with a processor when the observed load starts (the last registration counts)."""
+        out = {}
+        for st in Prop.steps(case):
+            if st[0] == "build":
+                out.setdefault(st[1], [])
+            elif st[0] == "reg":
+                out[st[1]] = list(case["reg"]) if st[2] is None else list(st[2])
+        return out
+
+    @staticmethod
+    def file_regs(case):
+        """file number -> rules with a processor in the metamodel the file's model belongs to."""
+        regs = Prop.regs(case)
+        mmfile = case.get("mmfile") or {}
+        return {k: regs.get(mmfile.get(str(k), 0), []) for k in range(len(case["files"]))}
+
+    DEFAULT_STEPS = [["build", 0, True], ["reg", 0, None]]
+
+    @staticmethod
+    def steps(case):
+        return (case.get("history") or {}).get("steps") or Prop.DEFAULT_STEPS
+
+    @staticmethod
+    def closure(case, k):
+        seen, todo = {k}, [k]
+        while todo:
+            for j in case["files"][todo.pop()]["imports"]:
+                if j not in seen:
+                    seen.add(j)
+                    todo.append(j)
+        return seen
+
+    @staticmethod
+    def new_files(case, obs):
+        """files whose models are built by the observed load: all files the main file includes, except
+        those whose model object already came out of an earlier successful load (a model repository of the
+        metamodel keeps them; their objects were processed then)."""
+        return sorted(Prop.closure(case, 0) - set(obs.get("kept", [])))
+
+    @staticmethod
+    def rerank(case):
+        """postponement counts without gaps, file by file: a resolution round that resolves nothing ends
+        the loop (C09), and the models of some files may be kept from an earlier load — whatever subset of
+        the files a load resolves, their counts must start at 0 and be contiguous."""
+        for k in range(len(case["files"])):
+            refs = list(Prop.case_refs(case, [k]))
+            rank = {w: i for i, w in enumerate(sorted({r["wait"] for r in refs}))}
+            for r in refs:
+                r["wait"] = rank[r["wait"]]
+
+    @staticmethod
+    def case_refs(case, files=None):
+        for k, f in enumerate(case["files"]):
+            if files is not None and k not in files:
+                continue
             for o in pg.walk_objs(f["root"]):
                 for v in o["vals"].values():
                     for x in (v if isinstance(v, list) else [v]):
@@ -140,9 +289,33 @@ class Prop(Check):
         run = Run(case, case["reg"], script, match_reg=case.get("match_reg", []))
         obs = {}
         try:
-            run.build()
-            run.providers()
-            run.processors()
+            run.phase = "history"
+            obs["hist"] = []
+            from textx.scoping import get_included_models
+
+            kept_roots = []  # the models earlier successful loads returned (kept alive: identity matters)
+            steps = self.steps(case)
+            last = {st[1]: i for i, st in enumerate(steps) if st[0] == "reg"}
+            for i, st in enumerate(steps):
+                if st[0] == "build":
+                    mm = run.new_metamodel(st[1], shared=st[2])
+                    if st[1] == 0:
+                        run.mm = mm
+                    run.providers(mm)
+                elif st[0] == "reg":
+                    run.processors(mm=run.mms[st[1]], reg=case["reg"] if st[2] is None else st[2], label=st[1],
+                                   replaced=i != last[st[1]])
+                elif st[0] == "load":
+                    run.fail_refs, run.fail_proc = st[2] == "ref", st[2] == "proc"
+                    try:
+                        hm = run.load(mm=run.mms[st[1]], main=st[3], broken=st[2] == "syntax")
+                        kept_roots.extend(get_included_models(hm))
+                        obs["hist"].append("ok")
+                    except Exception as e:  # noqa: BLE001
+                        obs["hist"].append(type(e).__name__ + ": " + str(e)[:200])
+                    finally:
+                        run.fail_refs = run.fail_proc = False
+            run.begin_observation()
             try:
                 model = run.load()
                 obs["outcome"] = "ok"
@@ -155,10 +328,9 @@ class Prop(Check):
                 obs["err"] = {"cls": type(e).__name__, "msg": str(e)[:300]}
                 model = None
             if model is not None:
-                from textx.scoping import get_included_models
-
                 for m in get_included_models(model):
                     run.capture(m)  # models in which no processor ran: unchanged
+                obs["kept"] = sorted(k for k, m in run.models.items() if any(m is x for x in kept_roots))
                 obs["final"] = {str(k): run.deep(m, meta=False) for k, m in sorted(run.models.items())}
                 obs["slots"] = {str(u): run.snapshot(o) for u, o in sorted(run.real.items())}
                 obs["linked_after"] = list(run.linked(list(run.models.values())))
@@ -168,7 +340,7 @@ class Prop(Check):
             obs["attrs"] = list(run.attrs)
             obs["kinds"] = []
             for name in run.classes:
-                t = run.mm[name]._tx_type
+                t = run.class_of(name)._tx_type
                 obs["kinds"].append({"common": 0, "abstract": 1, "match": 2}[t])
             obs["tags"] = dict(run.tags)
         finally:
@@ -180,16 +352,19 @@ class Prop(Check):
         if obs["outcome"] != "ok":
             return None
         classes, attrs = obs["classes"], obs["attrs"]
-        if any(r not in classes for r in case["reg"]):
-            classes = classes + [r for r in case["reg"] if r not in classes]
+        fregs = self.file_regs(case)
+        allreg = list(dict.fromkeys(list(case["reg"]) + [r for rs in fregs.values() for r in rs]))
+        classes = classes + [r for r in allreg if r not in classes]
         kinds = list(obs["kinds"])
         schema = case["schema"]
         absn = {a["name"] for a in schema["abstracts"]}
         for name in classes[len(kinds):]:
             kinds.append(1 if name in absn else 0)
         script = []
+        new = self.new_files(case, obs)
+        uid_file = self.uid_files(case)
         for rule, uid, beh in case.get("script", []):
-            if rule not in classes:
+            if rule not in classes or uid_file.get(uid) not in new:
                 continue
             if beh[0] == "v":
                 ret = ["v", VALUE_TAG[vkey(VALUES[beh[1]])]]
@@ -200,12 +375,13 @@ class Prop(Check):
                     continue
                 ret = ["f", attrs.index(beh[1])]
             script.append([classes.index(rule), uid, ret])
-        order = self.model_order(obs)
+        order = self.model_order(obs, new)
         nres = sum(1 for e in obs["events"] if e[0] == "resolve")
         return {
             "op": "objproc",
             "kinds": kinds,
-            "reg": [classes.index(r) for r in case["reg"]],
+            "reg": [classes.index(r) for r in self.regs(case).get(0, [])],
+            "regs": [[classes.index(r) for r in fregs[k]] for k in order],
             "user": [classes.index(u) for u in schema["user"] if u in classes],
             "script": script,
             "resolves": list(range(nres)),
@@ -213,8 +389,9 @@ class Prop(Check):
         }
 
     @staticmethod
-    def model_order(obs):
-        """files in the order textX walks them: by first processor call, then the rest."""
+    def model_order(obs, new):
+        """the files whose models the observed load builds (`new`), in the order textX walks them:
+        by first processor call, then the rest."""
         order = []
         uid_file = {}
         for k, tree in obs["pre"].items():
@@ -229,16 +406,21 @@ class Prop(Check):
         for e in obs["events"]:
             if e[0] == "proc" and uid_file.get(e[2]) is not None and uid_file[e[2]] not in order:
                 order.append(uid_file[e[2]])
+        order = [k for k in order if k in new]
         for k in sorted(int(x) for x in obs["pre"]):
-            if k not in order:
+            if k not in order and k in new:
                 order.append(k)
         return order
 
     def compare(self, case, obs, out):
         if "err" in out:
             return f"Lean model rejects the request: {out}"
-        classes = obs["classes"] + [r for r in case["reg"] if r not in obs["classes"]]
-        order = self.model_order(obs)
+        allreg = list(dict.fromkeys(list(case["reg"]) + [r for rs in self.file_regs(case).values() for r in rs]))
+        classes = obs["classes"] + [r for r in allreg if r not in obs["classes"]]
+        order = self.model_order(obs, self.new_files(case, obs))
+        alien = [e[1:] for e in obs["events"] if e[0] == "alien"]
+        if alien:
+            return f"calls of processors that the metamodel of the model has no registration for: {alien[:5]}"
         # processor calls with snapshots, model by model in walk order
         want = []
         for log in out["logs"]:
@@ -267,7 +449,7 @@ class Prop(Check):
         if got_per != per_model:
             return f"initialisation order per model: implementation {got_per}, model {per_model}"
         # phase shape: resolve* init* proc* (match-processor events are construction-time)
-        kinds_impl = [e[0] for e in obs["events"] if e[0] != "match"]
+        kinds_impl = [e[0] for e in obs["events"] if e[0] not in ("match", "alien")]
         kinds_model = [{"r": "resolve", "i": "init", "p": "proc"}[e[0]] for e in out["events"]]
         if kinds_impl != kinds_model:
             return f"event phases: implementation {self.compress(kinds_impl)}, model {self.compress(kinds_model)}"
@@ -291,21 +473,22 @@ class Prop(Check):
         return {u: k for u, (k, _o) in case_objs(case).items()}
 
     # ------------------------------------------------------------------ oracle
-    def expected_slots(self, case, rend):
+    def expected_slots(self, case, rend, obs):
         """uid -> {attr: expected shallow content after the walk}, from the statement:
         a non-None return value replaces the object in its containing attribute (own-rule
         processor first, then the declared rule's), nothing else changes."""
         schema = case["schema"]
         rm = pg.rule_map(schema)
-        reg = set(case["reg"])
-        script = {(r, u): b for r, u, b in case.get("script", [])}
+        fregs = self.file_regs(case)
         objs = case_objs(case)
+        new = set(self.new_files(case, obs))  # objects of models kept from earlier loads are not processed again
+        script = {(r, u): b for r, u, b in case.get("script", []) if objs[u][0] in new}
         matchn = {m["name"] for m in schema["matches"]} | set(pg.BASES)
         memo = {}
 
         def ret_value(rule, uid):
             b = script.get((rule, uid))
-            if b is None or rule not in reg:
+            if b is None or rule not in fregs[objs[uid][0]]:
                 return None
             if b[0] == "v":
                 return {"p": VALUE_TAG[vkey(VALUES[b[1]])]}
@@ -378,7 +561,12 @@ class Prop(Check):
         schema = case["schema"]
         rend = pg.render(case, case.get("layout", 0))
         objs = case_objs(case)
-        reg = list(case["reg"])
+        fregs = self.file_regs(case)  # the registrations that count for the objects of each file
+        reg = list(dict.fromkeys(r for rs in fregs.values() for r in rs))
+        for st, res in zip([st for st in self.steps(case) if st[0] == "load"], obs.get("hist", [])):
+            if st[2] == "ok" and res != "ok":
+                return f"an earlier load of the history ({st}) failed: {res}"
+        new = set(self.new_files(case, obs))
         commons = {r["name"] for r in schema["rules"]}
         abstracts = {a["name"] for a in schema["abstracts"]}
         # the model must be the generated object tree (else nothing below can be judged)
@@ -396,19 +584,25 @@ class Prop(Check):
             return (f"the loaded model does not consist of the generated objects: missing "
                     f"{sorted(set(objs) - seen)[:5]}, unexpected {sorted(seen - set(objs))[:5]}")
         procs = [(i, e) for i, e in enumerate(obs["events"]) if e[0] == "proc"]
+        alien = [e[1:] for e in obs["events"] if e[0] == "alien"]
+        if alien:
+            return (f"processors that are not registered with the metamodel in use ran during the load "
+                    f"(registration, rule, object): {alien[:5]}")
         # (1) once per object of a common rule / (2) once per object stored under an abstract rule
         for rule in reg:
             calls = sorted(e[2] for _i, e in procs if e[1] == rule)
             if rule in commons:
-                want = sorted(u for u, (_k, o) in objs.items() if o["rule"] == rule)
+                want = sorted(u for u, (k, o) in objs.items() if o["rule"] == rule and k in new and rule in fregs[k])
                 if calls != want:
                     return f"processor of common rule {rule} ran on objects {calls}, the model objects of that rule are {want}"
             elif rule in abstracts:
-                want = sorted(u for u, o in rend.objs.items() if o["decl"] == rule and o["parent"] is not None)
+                want = sorted(u for u, o in rend.objs.items()
+                              if o["decl"] == rule and o["parent"] is not None and o["file"] in new
+                              and rule in fregs[o["file"]])
                 if calls != want:
                     return (f"processor of abstract rule {rule} ran on objects {calls}, the objects stored in "
                             f"attributes typed {rule} are {want}")
-        stray = [e[1:3] for _i, e in procs if e[1] not in reg or e[2] not in objs]
+        stray = [e[1:3] for _i, e in procs if e[2] not in objs or e[1] not in fregs[objs[e[2]][0]]]
         if stray:
             return f"processor calls that nothing entitles: {stray[:5]}"
         first = {}
@@ -417,10 +611,10 @@ class Prop(Check):
         for (rule, uid), i in first.items():
             if rule in abstracts:
                 own = objs[uid][1]["rule"]
-                if own in reg and not (first.get((own, uid), 10 ** 9) < i):
+                if own in fregs[objs[uid][0]] and not (first.get((own, uid), 10 ** 9) < i):
                     return f"processor of abstract rule {rule} ran on object {uid} before the processor of its own rule {own}"
         # (3) only after all references are resolved and user classes are initialised
-        nrefs = len(rend.refs)
+        nrefs = len([x for x in rend.refs if x[0] in new])
         for i, e in procs:
             if not e[3] or e[4] != nrefs:
                 return (f"processor {e[1]} called on object {e[2]} while references were unresolved "
@@ -441,7 +635,7 @@ class Prop(Check):
                 if d in pos and max(pos[d]) > min(idxs):
                     return f"object {d} (contained in {uid}) was processed after its container"
         # (5) a non-None return value replaces the object in its containing attribute
-        want_slots = self.expected_slots(case, rend)
+        want_slots = self.expected_slots(case, rend, obs)
         rm = pg.rule_map(schema)
         for uid, want in want_slots.items():
             got = obs["slots"].get(str(uid))
@@ -486,7 +680,10 @@ class Prop(Check):
 
     def extra_evidence(self, cases, obs, outs):
         d = {"files>1": 0, "abstract_with_match_alt": 0, "replacements": 0, "postponed_refs": 0, "user_classes": 0,
-             "proc_calls": 0, "objects": 0}
+             "proc_calls": 0, "objects": 0, "grammar_files>1": 0, "transitively_imported_objects": 0,
+             "model_repository": 0, "models_kept_from_earlier_loads": 0, "history": 0, "shared_user_class_metamodels": 0,
+             "observed_metamodel_not_newest": 0, "earlier_loads_ok": 0, "earlier_loads_failed": 0,
+             "replaced_registration": 0, "files_of_another_metamodel": 0}
         for c, o in zip(cases, obs):
             if not isinstance(o, dict) or "events" not in o:
                 continue
@@ -498,12 +695,53 @@ class Prop(Check):
             d["user_classes"] += bool(c["schema"]["user"])
             d["proc_calls"] += sum(1 for e in o["events"] if e[0] == "proc")
             d["objects"] += len(o.get("slots", {}))
+            if c.get("gsplit"):
+                d["grammar_files>1"] += 1
+                d["transitively_imported_objects"] += bool(self.chained_objects(c, c["gsplit"]["levels"]))
+            d["model_repository"] += bool(c.get("grepo"))
+            d["files_of_another_metamodel"] += bool(c.get("mmfile"))
+            d["models_kept_from_earlier_loads"] += bool(o.get("kept"))
+            steps = self.steps(c)
+            if c.get("history"):
+                d["history"] += 1
+                builds = [st for st in steps if st[0] == "build"]
+                shared = [st for st in builds if st[2]]
+                d["shared_user_class_metamodels"] += bool(c["schema"]["user"]) and len(shared) > 1
+                d["observed_metamodel_not_newest"] += bool(c["schema"]["user"]) and shared[-1][1] != 0
+                d["replaced_registration"] += any(st[0] == "reg" and st[1] == 0 and st[2] is not None for st in steps)
+                for st, res in zip([st for st in steps if st[0] == "load"], o.get("hist", [])):
+                    d["earlier_loads_ok" if res == "ok" else "earlier_loads_failed"] += 1
         return {"distribution": d}
 
     # ------------------------------------------------------------------ shrinking / search
     def shrink(self, case):
         import copy
 
+        # a shorter history (a step that later steps need is kept), one grammar file, no repository
+        steps = (case.get("history") or {}).get("steps")
+        if case.get("mmfile"):
+            c = copy.deepcopy(case)
+            self.set_mmfile(c, {})
+            yield c
+        if steps:
+            c = copy.deepcopy(case)
+            del c["history"]
+            self.set_mmfile(c, {})
+            yield c
+            owners = set((case.get("mmfile") or {}).values())
+            for i, st in enumerate(steps):
+                if st[0] == "build" and (st[1] == 0 or st[1] in owners or any(x[1] == st[1] for x in steps[i + 1:])):
+                    continue
+                if st[0] == "reg" and st[1] == 0 and st[2] is None:
+                    continue
+                c = copy.deepcopy(case)
+                del c["history"]["steps"][i]
+                yield c
+        for key in ("gsplit", "grepo"):
+            if case.get(key):
+                c = copy.deepcopy(case)
+                del c[key]
+                yield c
         # fewer scripted returns, fewer registrations
         for i in range(len(case.get("script", []))):
             c = copy.deepcopy(case)
@@ -563,10 +801,7 @@ class Prop(Check):
                     elif isinstance(v, list):
                         x["vals"][a] = [y for y in v if not (isinstance(y, dict) and y.get("ref") in dead)]
         c["script"] = [s for s in c.get("script", []) if s[1] not in dead]
-        waits = sorted({r["wait"] for r in self.case_refs(c)})
-        rank = {w: i for i, w in enumerate(waits)}
-        for r in self.case_refs(c):
-            r["wait"] = rank[r["wait"]]
+        self.rerank(c)
         return c
 
     def extra_search(self, rng, tier, broken):
